@@ -42,9 +42,25 @@ func envHole(v ssa.Value) string {
 	if ex, ok := v.(*ssa.Extract); ok {
 		if nx, ok := ex.Tuple.(*ssa.Next); ok {
 			if rg, ok := nx.Iter.(*ssa.Range); ok {
-				call, isAll := rg.X.(*ssa.Call)
-				if isAll {
-					isAll = call.Call.Method != nil && call.Call.Method.Name() == "All"
+				isAllCall := func(x ssa.Value) bool {
+					call, ok := resolve(x).(*ssa.Call)
+					return ok && call.Call.Method != nil && call.Call.Method.Name() == "All"
+				}
+				isAll := isAllCall(rg.X)
+				// `if envs != nil { all = envs.All() }`: the nil map (no environments) or All()
+				if p, isPhi := resolve(rg.X).(*ssa.Phi); isPhi {
+					nAll := 0
+					isAll = true
+					for _, e := range p.Edges {
+						switch {
+						case isAllCall(e):
+							nAll++
+						case isNilConst(resolve(e)):
+						default:
+							isAll = false
+						}
+					}
+					isAll = isAll && nAll > 0
 				}
 				if isAll || envMapCtx[rg.X] {
 					switch ex.Index {
